@@ -42,6 +42,71 @@
 #   * a[k][v] = x (row read, element written, row written back), `std::thread::scope(|s| BODY)` = BODY,
 #     `s.spawn(|| BLOCK)` = the computation of BLOCK as a value (res T), `h.join().unwrap()` = join_unwrap h.
 # Anything outside the subset raises TieBroken naming the construct -- never a silent approximation.
+#
+# Round four (package robust): CANONICALISATIONS -- source shapes that are equal by the semantics above are given the SAME Gallina
+# term, so that a behaviour-preserving rewrite of the source does not disturb the equality lemmas (findings/harmless-rewrites.md;
+# corpus and negative set under tools/rewrites/).  Each is an identity of the semantics the translation already commits to; none
+# accepts a construct the translator refused before by ignoring it, and a loop that does not meet the side conditions word for
+# word falls back to the previous translation (the table-driven `while`, which has no entry for it and therefore refuses).
+#   (C1) counter `while` = `for`.  With i : usize, H an expression that does not mention i:
+#           while i < H { BODY; i += 1; }   =   for i' in i..H { BODY[i'] };  i := max(i, H)
+#           while i < H { i += 1; BODY }    =   for k in i..H { let i = k + 1; BODY };  i := max(i, H)
+#           while i > L { i -= 1; BODY }    =   for i' in (L..i).rev() { BODY[i'] };  i := min(i, L)
+#        (`<=` as the inclusive range, `i != 0` as `i > 0`, the bound on either side of the comparison; `i = i + 1` as `i += 1`).
+#        Side conditions, all checked: BODY does not assign i (no assignment to it or to a place in it, no `&mut i`, no re-declaration)
+#        and, in the first form, contains no `continue` of this loop (it would skip the increment); H (resp. L) is INVARIANT in BODY:
+#        it reads no variable BODY assigns -- except the length of a list / the dimensions of a matrix that BODY changes only by
+#        writing single elements in place (upd keeps the length: Base/Panic.v upd_list_length; mset keeps rows and cols) -- and
+#        evaluating it assigns nothing.  Argument: the `while` evaluates H at the head of every pass, the first time exactly where
+#        the `for` evaluates its bound (immediately, nothing in between); if that evaluation panics both panic there; otherwise by
+#        invariance every later evaluation gives the same value h, so the passes are i0, i0+1, .., h-1 (none if i0 >= h) with the
+#        counter equal to the loop variable in BODY, and the counter ends as max(i0, h).  Down-counting: passes i0-1, .., L (none if
+#        i0 <= L), the checked subtraction `i -= 1` cannot underflow because i > L >= 0 was just tested.  usize `+ 1` is unbounded
+#        in the model as everywhere else.  The final value is bound by a `let` after the loop unless the counter is dead: declared by
+#        a `let` of the same block and not mentioned after the loop (then its scope ends with the block).  A `while` the table has
+#        an entry for is never canonicalised (the table wins), and canonicalised loops do not take part in the table's numbering.
+#   (C2) for K in 0..N { let I = N - 1 - K; BODY }  =  for I in (0..N).rev() { BODY }   when K does not occur in BODY, BODY does not
+#        assign I, N mentions neither and is invariant in BODY (as in C1): in pass K < N both checked subtractions succeed (N >= 1,
+#        K <= N - 1) and I = N-1, .., 0 in this order; N is evaluated once by the range in both versions.
+#   (C3) conditionals in canonical orientation: an `if` WITH a non-empty else arm whose condition is `!c` is the `if` on c with the
+#        arms exchanged; and when both operands are usize / isize (or bool for `!=`), `a != b`, `a >= b`, `a > b` become `a == b`,
+#        `a < b`, `a <= b` with the arms exchanged.  These are total orders with decidable equality; NEVER applied to element
+#        (floating-point) operands, where NaN makes `a >= b` differ from `!(a < b)`.  An `if` without else (every guard) is untouched.
+#   (C4) a value `if` in tail position whose arms are blocks: each arm is translated with the continuation of the enclosing block,
+#        which is what `if c { return a; } rest` already produced for the first arm: `if c { a } else { rest }` is the same term.
+#   (C5) an empty vector (`vec![]`, `Vec::new()`, `Vector::empty()`) whose element type the table does not give by NAME is typed
+#        by the first `.push(x)` on it (rename-proof); a wrong guess cannot go unnoticed: the Gallina file would not type-check.
+#   (C6) a call `x.helper(args);` (or `Self::helper(args);` of an associated function) in statement position of a method that is not in the call table but is defined in the SAME impl
+#        block, returns (), has no `return`, and whose `&mut` arguments are all `&mut <variable>`, is the block
+#        { let p1 = arg1; ..; BODY[self := x; q := the variable passed for the `&mut` parameter q] } with every binder of BODY renamed
+#        apart (no capture): receiver and arguments are evaluated left to right before the body, `&mut` parameters are exclusive
+#        borrows of the caller's variables (no aliasing in safe Rust), shared borrows cannot be mutated during the call, so copying
+#        them is unobservable.  Nesting depth at most 3 (recursion is refused).  A helper that is in the table keeps its table entry.
+#   (C7) negation normal form of boolean expressions: `!(x && y)` = `!x || !y`, `!(x || y)` = `!x && !y` (the same operands are
+#        evaluated in the same order under short-circuiting), `!!x` = x, and `!(a < b)` = `a >= b` etc. on usize / isize / bool
+#        operands only (never on elements).
+#   (C8) the ORDER of the state tuple of a loop / of a falling-through `if`.  The translation threads the assigned variables in
+#        declaration order, so moving a declaration (to the point of first use, past another one) permuted the tuple.  The
+#        canonical order -- the order of the FIRST ASSIGNMENT inside the construct -- does not depend on declarations or names;
+#        r2c_table.STATE_ORDERS pins, per construct of the pristine source (loops and ifs numbered separately in source order),
+#        the permutation from the canonical order to the declaration order (generated by `translate_src.py --pin-state-orders`;
+#        by construction the pristine source translates to the same Gallina with and without the table).  Any order is a correct
+#        translation: one and the same list is used for the initial state, the pattern of the body and its result; a stale or
+#        wrong entry can only change the SHAPE (the equality lemma then fails), never the meaning.
+#   Proof side (Proofs/SrcEqBase.v): src_eq also commutes two index-checked reads (bind_swap; both can only fail with Panic Index)
+#        when the second step of one side is the first step of the other -- `let t = a[i] * b[j]; x[k] -= t` <-> `x[k] = x[k] - a[i] * b[j]`.
+#   The loop identities C1 / C2, the flip laws of C3 / C7 and the shape facts used by the invariance test of C1 are THEOREMS:
+#        Proofs/SrcEqCanon.v (pinned for C11: counter_up_while_is_for_ret, counter_up_while_is_for, counter_up1_while_is_for,
+#        counter_down_while_is_for_rev, countdown_for_is_for_rev, conditional_orientation, negation_normal_form, element_writes_keep_shape).
+#   (C9) loops over the elements of a list are index loops (the rewrite clippy's needless_range_loop suggests, backwards):
+#        `for x in E.iter() | E.iter_mut() | &E | &mut E`, `for (i, x) in E.iter().enumerate()`, `for (a, b) in E.iter().zip(F.iter())`
+#        become `for k in 0..E.len()` (resp. `0..min(E.len(), F.len())`) with the element variables replaced by E[k] (F[k]); see iter_for.
+#        The element variable is a reference into E; while the iterator lives the borrow rules exclude every other access that
+#        could change E, element writes keep the length, so E[k] with k < E.len() is in range and is the element the iterator yields.
+# Not canonicalised on purpose (they remain noise, see the findings file): statement order, `while i != H`, hoisting / inlining of
+# FALLIBLE reads and calls (they change the evaluation order or the number of possible panics, which only a proof can discharge),
+# changes of the loop structure (re-indexing, flattening, rolling locals instead of a table), iterators over slices / other
+# adaptors (skip, rev after iter, chunks), tuple patterns over drain(..), `match` on integers.
 import re
 try:
     from translate import TieBroken
@@ -644,11 +709,24 @@ class Env:
             if v.name not in seen: seen.add(v.name); out.append(v)
         return list(reversed(out))
 
+class ModList(list):
+    pass
+
+class Rec(set):
+    """the variables a piece of code assigns; .shape: those assigned otherwise than by writing one element in place
+    (v[i] = x / m[(i,j)] = x on the variable itself: upd / mset, which keep length resp. rows, cols)"""
+    def __init__(self): set.__init__(self); self.shape = set(); self.order = []
+    def add(self, v):
+        if v not in self: self.order.append(v)
+        set.add(self, v)
+
 class Ctx:
     def __init__(self, ret, cont, records, ret_raw=None):
         self.ret, self.cont, self.records, self.ret_raw = ret, cont, records, ret_raw
-    def note(self, v):
-        for r in self.records: r.add(v)
+    def note(self, v, elem_only=False):
+        for r in self.records:
+            r.add(v)
+            if not elem_only and isinstance(r, Rec): r.shape.add(v)
     def sub(self, ret=None, cont=None, record=None, ret_raw=None):
         return Ctx(ret or self.ret, cont or self.cont, self.records + ([record] if record is not None else []), ret_raw or self.ret_raw)
 
@@ -720,6 +798,96 @@ def strip(e):
         e = e[1] if e[0] in ("paren", "mcall") else e[2]
     return e
 
+
+# ---- syntactic helpers of the canonicalisations (round four, package robust; see the header)
+def unparen(e):
+    while e[0] == "paren": e = e[1]
+    return e
+
+def ast_eq(a, b):
+    """structural equality of two expressions, parentheses ignored"""
+    if isinstance(a, tuple) and isinstance(b, tuple):
+        a, b = unparen(a), unparen(b)
+        return len(a) == len(b) and all(ast_eq(x, y) for x, y in zip(a, b))
+    if isinstance(a, list) and isinstance(b, list):
+        return len(a) == len(b) and all(ast_eq(x, y) for x, y in zip(a, b))
+    return a == b
+
+def mentions(node, name):
+    """the identifier occurs somewhere in the piece of syntax (variables, struct-literal shorthands, macro texts)"""
+    if isinstance(node, tuple):
+        if node and node[0] == "var" and node[1] == name: return True
+        if node and node[0] == "macro" and isinstance(node[-1], str) and name in re.findall(r"[A-Za-z_][A-Za-z0-9_]*", node[-1]): return True
+        return any(mentions(x, name) for x in node[1:])
+    if isinstance(node, list): return any(mentions(x, name) for x in node)
+    return False
+
+def vars_of(node, acc=None):
+    """the identifiers used as variables in an expression"""
+    acc = set() if acc is None else acc
+    if isinstance(node, tuple):
+        if node and node[0] == "var": acc.add(node[1])
+        for x in node[1:]: vars_of(x, acc)
+    elif isinstance(node, list):
+        for x in node: vars_of(x, acc)
+    return acc
+
+def continues_here(node):
+    """a `continue` that belongs to the loop whose body this is (nested loops and closures are not entered)"""
+    if isinstance(node, tuple):
+        if node and node[0] in ("continue", "cont_expr"): return True
+        if node and node[0] in ("for", "while", "closure"): return False
+        return any(continues_here(x) for x in node[1:])
+    if isinstance(node, list): return any(continues_here(x) for x in node)
+    return False
+
+def assigns(node, name):
+    """the piece of syntax assigns the variable `name` or a place inside it, or borrows it mutably (syntactic, conservative)"""
+    if isinstance(node, tuple):
+        if node and node[0] == "assign":
+            pl = strip(node[2])
+            while pl[0] in ("field", "index"): pl = strip(pl[1])
+            if pl == ("var", name): return True
+        if node and node[0] == "un" and node[1] == "&mut" and mentions(node[2], name): return True
+        if node and node[0] == "let" and pat_binds(node[1], name): return True          # re-declared inside: give up
+        return any(assigns(x, name) for x in node[1:])
+    if isinstance(node, list): return any(assigns(x, name) for x in node)
+    return False
+
+def pat_binds(pat, name):
+    if pat[0] == "pvar": return pat[1] == name
+    if pat[0] == "ptuple": return any(pat_binds(q, name) for q in pat[1])
+    if pat[0] == "pctor": return pat_binds(pat[2], name)
+    return False
+
+def rename_vars(node, mapping):
+    """consistent renaming of variables (uses and binders) in a piece of syntax"""
+    if isinstance(node, tuple):
+        if node and node[0] == "var" and len(node) == 2: return ("var", mapping.get(node[1], node[1]))
+        if node and node[0] == "pvar" and len(node) == 3: return ("pvar", mapping.get(node[1], node[1]), node[2])
+        return tuple(rename_vars(x, mapping) for x in node)
+    if isinstance(node, list): return [rename_vars(x, mapping) for x in node]
+    return node
+
+def binders_of(node, acc):
+    if isinstance(node, tuple):
+        if node and node[0] == "pvar" and len(node) == 3 and node[1][:1].islower(): acc.add(node[1])
+        for x in node: binders_of(x, acc)
+    elif isinstance(node, list):
+        for x in node: binders_of(x, acc)
+    return acc
+
+def is_one(e):
+    e = unparen(e)
+    return e[0] == "num" and e[1].replace("_", "") in ("1", "1usize")
+
+def is_step(st, name, sign):
+    """the statement is `name += 1` / `name = name + 1` (sign '+') resp. `name -= 1` / `name = name - 1` (sign '-')"""
+    if st[0] != "assign" or unparen(st[2]) != ("var", name): return False
+    if st[1] == sign + "=": return is_one(st[3])
+    r = unparen(st[3])
+    return st[1] == "=" and r[0] == "bin" and r[1] == sign and unparen(r[2]) == ("var", name) and is_one(r[3])
+
 class Translator:
     """one function at a time.  `tables` (driver/r2c_table.py): METHODS, PATHS, BINOPS, UNOPS, FIELDS, CONSTS."""
     def __init__(self, tables, spec):
@@ -774,6 +942,18 @@ class Translator:
         if k == "un":
             op = e[1]
             if op in ("&", "&mut", "*"): return self.ex(e[2], env, B)
+            if op == "!":
+                # (C7) negation normal form: `!` is pushed through `&&` / `||` (De Morgan; the short-circuit evaluation of the operands
+                # is the same), through `!`, and through comparisons of usize / isize / bool operands (never of elements: NaN)
+                inner = unparen(e[2])
+                if inner[0] == "bin" and inner[1] in ("&&", "||"):
+                    return self.ex(("bin", "||" if inner[1] == "&&" else "&&", ("un", "!", inner[2]), ("un", "!", inner[3])), env, B)
+                if inner[0] == "un" and inner[1] == "!": return self.ex(inner[2], env, B)
+                dual = {"<": ">=", "<=": ">", ">": "<=", ">=": "<", "==": "!=", "!=": "=="}
+                if inner[0] == "bin" and inner[1] in dual:
+                    tys = self.discrete_operands(inner[2], inner[3], env)
+                    if tys is not None and (inner[1] in ("==", "!=") or "bool" not in tys):
+                        return self.ex(("bin", dual[inner[1]], inner[2], inner[3]), env, B)
             a, ta = self.ex(e[2], env, B)
             if op == "-":
                 if ta in SCALARS: return ("(neg %s)" % a, ta)
@@ -964,7 +1144,33 @@ class Translator:
             return self.apply_fn(self.tb.METHODS[("index", ty)], [base, i], B)
         self.bad("indexing into a value of type %s" % (ty,))
 
+    def discrete_operands(self, a, b, env):
+        """the set of the (at most one) non-literal type of two operands when both are usize / isize / bool / integer literals
+        -- totally ordered types with decidable equality --, else None"""
+        ts = [self.type_of(a, env), self.type_of(b, env)]
+        if not all(isinstance(t, str) for t in ts): return None
+        tys = set(ts) - {"lit"}
+        return tys if len(tys) <= 1 and tys <= {"usize", "isize", "bool"} else None
+
+    def canon_if(self, e, env):
+        """an `if` WITH an else arm, negated condition:  if !c {X} else {Y}  ==>  if c {Y} else {X};  and on usize / isize / bool
+        operands (total orders -- never on floating-point elements, where a NaN makes `a >= b` differ from `!(a < b)`)
+        `!=`, `>=`, `>`  ==>  `==`, `<`, `<=` with the arms exchanged"""
+        c, th, el = e[1], e[2], e[3]
+        if el is None or (not el[1] and el[2] is None): return e
+        while True:
+            cu = unparen(c)
+            if cu[0] == "un" and cu[1] == "!":
+                c, th, el = cu[2], el, th; continue
+            if cu[0] == "bin" and cu[1] in ("!=", ">=", ">"):
+                tys = self.discrete_operands(cu[2], cu[3], env)
+                if tys is not None and (cu[1] == "!=" or "bool" not in tys):
+                    c, th, el = ("bin", {"!=": "==", ">=": "<", ">": "<="}[cu[1]], cu[2], cu[3]), el, th; continue
+            break
+        return ("if", c, th, el)
+
     def if_value(self, e, env, B):
+        e = self.canon_if(e, env)
         c, tc = self.ex(e[1], env, B)
         if tc != "bool": self.bad("`if` condition of type %s" % (tc,))
         th, el = e[2], e[3]
@@ -1049,6 +1255,13 @@ class Translator:
                     and clo[2][1] == ("var", clo[1][0][1]) and clo[2][2].isdigit()):
                 self.bad(".sort_by_key(..) whose key is not `|x| x.<k>`")
             name, args = "sort_by_key:proj%s" % clo[2][2], []
+        rv = strip(recv)
+        if name == "push" and len(args) == 1 and rv[0] == "var" and getattr(env.lookup(rv[1]), "flex", False):
+            fv, ta = env.lookup(rv[1]), self.type_of(args[0], env)
+            if ta == "lit": ta = "usize"
+            cand = [l for l, el in LISTS.items() if el == ta and l != "poly"]
+            if ta != LISTS[fv.ty] and len(cand) == 1: fv.ty = cand[0]
+            fv.flex = False                              # typed by its first push
         r, tr = self.ex(recv, env, B)
         if isinstance(tr, tuple) and tr[0] == "opt" and name == "unwrap" and not args:
             v = self.fresh("u"); B.append(("bind", ("v", v), ("app", "unwrap_opt", [g_raw(r)]))); return (v, tr[1])
@@ -1221,7 +1434,7 @@ class Translator:
                 direct = self.tb.FIELDS.get((owner.ty, base[2]), ("", ""))[0] == "{0}" if base[0] == "field" else base[0] == "var"
                 if direct and cur == owner.g:                  # x[i] = v  /  x.vec[i] = v : the owner is the list itself
                     B.append(("bind", ("v", owner.g), ("app", "upd", [g_raw(cur), g_raw(i), g_raw(val)])))
-                    self.ctx.note(owner); return
+                    self.ctx.note(owner, elem_only=True); return
                 v = self.fresh("b")
                 B.append(("bind", ("v", v), ("app", "upd", [g_raw(cur), g_raw(i), g_raw(val)])))
                 self.assign_place(base, v, bty, env, B); return
@@ -1232,7 +1445,7 @@ class Translator:
                 i, ti = self.ex(idx[1][0], env, B); j, tj = self.ex(idx[1][1], env, B)
                 if tval != "elem": self.bad("a %s stored into a matrix" % (tval,))
                 B.append(("bind", ("v", owner.g), ("app", "mset", [g_raw(owner.g), g_raw(i), g_raw(j), g_raw(val)])))
-                self.ctx.note(owner); return
+                self.ctx.note(owner, elem_only=True); return
             self.bad("assignment through an index into a value of type %s" % (bty,))
         if p[0] == "field":
             base = strip(p[1])
@@ -1253,12 +1466,14 @@ class Translator:
         return [v.g for v in M]
     def assigned_in(self, run, env):
         """dry run of a piece of translation to find which outer variables it assigns (in declaration order)"""
-        rec = set()
+        rec = Rec()
         saved_n, saved_ctx, saved_k = self.n, self.ctx, set(getattr(self, "killed", ()))
         try:
             run(rec)
         finally:
             self.n, self.ctx, self.killed = saved_n, saved_ctx, saved_k
+        self.last_shape = set(rec.shape)         # of these, the ones assigned otherwise than by single element writes
+        self.last_order = list(rec.order)        # in the order of their first assignment
         return [v for v in env.visible() if v in rec]
 
     def block(self, blk, env, k):
@@ -1281,7 +1496,9 @@ class Translator:
             return rest(env2)
         if kind == "assign": return self.assign_stmt(s, env, rest)
         if kind == "for": return self.for_stmt(s, env, rest)
-        if kind == "while": return self.while_stmt(s, env, rest)
+        if kind == "while":
+            t = self.counter_while(s, ss, i, tail, env, rest)
+            return t if t is not None else self.while_stmt(s, env, rest)
         if kind == "return":
             if s[1] is None: return self.ctx.ret(env, None)
             B = []; v = self.ex(s[1], env, B); return wrap(B, self.ctx.ret(env, v))
@@ -1299,6 +1516,9 @@ class Translator:
                 B = []; v = self.ex(e[1], env, B); return wrap(B, self.ctx.ret(env, v))
             if e[0] == "cont_expr": return self.ctx.cont(env)
             if e[0] == "block": return self.block(e[1], env, lambda env2, v: rest(env.merge(env2)))
+            if e[0] in ("mcall", "call"):
+                blk = self.inline_helper(e, env)
+                if blk is not None: return self.inlined(blk, env, lambda env2, v: rest(env.merge(env2)))
             B = []
             if e[0] == "mcall": t, ty = self.mcall(e, env, B, stmt=True)
             else: t, ty = self.ex(e, env, B)
@@ -1323,6 +1543,20 @@ class Translator:
             return self.block(sc[1], env2, lambda env3, v: k(env.merge(env3), v))
         if e[0] == "if" and (e[3] is None or e[2][2] is None):       # a unit `if` in tail position
             return self.if_stmt(e, env, lambda env2: k(env2, None))
+        if e[0] == "if":
+            e = self.canon_if(e, env)
+            def plain(blk):
+                t = blk[2]
+                return not blk[1] and t is not None and t[0] not in ("if", "match", "ret_expr", "cont_expr", "block") \
+                       and not (t[0] == "macro" and t[1] in ("panic", "unreachable"))
+            if not (plain(e[2]) and plain(e[3])):
+                # a value `if` in tail position whose arms are blocks: each arm continues with the continuation of the block
+                # (`if c { return a; } rest` and `if c { a } else { rest }` are the same term)
+                B = []
+                c, tc = self.ex(e[1], env, B)
+                if tc != "bool": self.bad("`if` condition of type %s" % (tc,))
+                kk = lambda env2, v: k(env.merge(env2), v)
+                return wrap(B, ("if", c, self.block(e[2], env, kk), self.block(e[3], env, kk)))
         if e[0] == "macro" and e[1] in ("panic", "unreachable"): return ("panic", "Guard")
         if e[0] == "ret_expr":
             if e[1] is None: return self.ctx.ret(env, None)
@@ -1339,11 +1573,67 @@ class Translator:
             env_s, xv = env.declare(some[0][0][2][1], self.gname(some[0][0][2][1]), ts[1])
             return wrap(B, ("match", sc, [("Some %s" % xv.g, self.tail_expr(some[0][1], env_s, k)),
                                           ("None", self.tail_expr(none[0][1], env, k))]))
+        if e[0] in ("mcall", "call"):
+            blk = self.inline_helper(e, env)
+            if blk is not None: return self.inlined(blk, env, lambda env2, v: k(env.merge(env2), None))
         B = []
         if e[0] == "mcall": v = self.mcall(e, env, B, stmt=True)
         else: v = self.ex(e, env, B)
         if v[1] == "unit": v = None
         return wrap(B, k(env, v))
+
+    # ------------------------------------------------------------------ private helper methods are inlined (see the header)
+    def inlined(self, blk, env, k):
+        self.inline_depth = getattr(self, "inline_depth", 0) + 1
+        try:
+            return self.block(blk, env, k)
+        finally:
+            self.inline_depth -= 1
+
+    def inline_helper(self, e, env):
+        """x.helper(args) as a statement, where `helper` is not in the call table but is a method of the same impl block, returns
+        (), contains no `return`, and every `&mut` argument is `&mut <variable>`:  the block
+             { let p1 = arg1; ..; BODY[self := x, q := the variable passed for a `&mut` parameter q] }
+        with all binders of BODY renamed apart.  None when the call is not of this kind (the call table applies, or refuses)."""
+        items, hdr = getattr(self, "items", None), getattr(self, "impl_header", None)
+        if items is None or hdr is None or getattr(self, "inline_depth", 0) >= 3: return None
+        if e[0] == "call":
+            # Self::helper(args): an associated function of the same impl block (no receiver)
+            if e[1][0] != "path" or len(e[1][1]) != 2 or e[1][1][0] != "Self": return None
+            name, args, rv = e[1][1][1], e[2], None
+            if self.spec.get("paths", {}).get(("Self::" + name, len(args))) or self.tb.PATHS.get(("Self::" + name, len(args))): return None
+        else:
+            recv, name, args = e[1], e[2], e[3]
+            rv = strip(recv)
+            if rv[0] != "var" or env.lookup(rv[1]) is None: return None
+            tr = env.lookup(rv[1]).ty
+            if tr != self.selfty or not isinstance(tr, str): return None
+            key = (tr, name, len(args))
+            if self.spec.get("methods", {}).get(key) or self.tb.METHODS.get(key): return None
+            if name in ("clone", "to_owned", "to_vec", "collect", "position", "unwrap", "spawn", "join", "sort_by_key", "iter", "map"): return None
+        cands = [f for it in items if it[0] == "impl" and _norm(it[1]) == _norm(hdr) for f in it[2] if f[1] == name]
+        if len(cands) != 1: return None
+        fn = cands[0]
+        params = fn[2]
+        has_self = bool(params) and params[0][0] == "self"
+        if has_self != (rv is not None) or fn[3] is not None or len(params) - (1 if has_self else 0) != len(args): return None
+        body = fn_body_ast(fn, "%s (inlined into %s)" % (name, self.what))
+        if contains_return(body): return None
+        self.inline_count = getattr(self, "inline_count", 0) + 1
+        suffix = "__h%d" % self.inline_count
+        mapping = {b: b + suffix for b in binders_of(body, set())}
+        if rv is not None and rv[1] != "self": mapping["self"] = rv[1]
+        lets = []
+        for (pname, pty, pmut), a in zip(params[1:] if has_self else params, args):
+            if pty.replace(" ", "").startswith("&mut"):
+                au = unparen(a)
+                if not (au[0] == "un" and au[1] == "&mut" and unparen(au[2])[0] == "var" and env.lookup(unparen(au[2])[1]) is not None): return None
+                mapping[pname] = unparen(au[2])[1]
+            else:
+                mapping[pname] = pname + suffix
+                lets.append(("let", ("pvar", pname + suffix, pmut), pty, a))
+        body2 = rename_vars(body, mapping)
+        return ("blk", lets + list(body2[1]), body2[2])
 
     def let_stmt(self, s, env, rest):
         pat, ty, e = s[1], s[2], s[3]
@@ -1372,6 +1662,12 @@ class Translator:
                 dty = rust_type(ty, self.selfty) if ty else "usize"
                 t = self.lit(t, "lit", dty); tv = dty
             env2, v = env.declare(pat[1], self.gname(pat[1]), tv)
+            if ov is None and isinstance(tv, str) and tv in LISTS and t.startswith("(@nil") and not B:
+                # an empty vector whose element type the table does not give: typed by the first `.push(x)` on it (mcall); the
+                # binder is built after the rest of the block has been translated, with the type found there
+                v.flex = True
+                body = rest(env2)
+                return ("let", ("v", v.g), g_raw("(@nil %s)" % gtype(LISTS[v.ty])), body)
             # a let of a plain value is a Gallina let; if the initialiser was a single fallible step, rename its binder
             if B and B[-1][0] == "bind" and B[-1][1] == ("v", t):
                 B[-1] = ("bind", ("v", v.g), B[-1][2])
@@ -1481,6 +1777,8 @@ class Translator:
         self.bad("compound assignment to an unsupported place")
 
     def if_stmt(self, e, env, rest):
+        e0 = e
+        e = self.canon_if(e, env)
         B = []
         c, tc = self.ex(e[1], env, B)
         if tc != "bool": self.bad("`if` condition of type %s" % (tc,))
@@ -1501,10 +1799,11 @@ class Translator:
             self.block(th, env, lambda env2, v: (ends.append(env2), g_ok(g_raw("tt")))[1])
             self.block(el, env, lambda env2, v: (ends.append(env2), g_ok(g_raw("tt")))[1])
         outer_ctx = self.ctx
-        M = self.assigned_in(run, env)
+        M = self.assigned_in(run, env); shape, order = self.last_shape, self.last_order
         # a variable declared without initialiser takes part in the join only if every path that falls through assigns it
         # (otherwise it is still unassigned afterwards and the assignments are local to their branch)
         M = [v for v in M if v not in env.uninit or all(v not in e2.uninit for e2 in ends)]
+        M = self.state_order(M, order, e0)
         env_after = env
         for v in M: env_after = env_after.init(v)
         names = self.state_of(M)
@@ -1515,17 +1814,22 @@ class Translator:
             b = self.block(el, env, lambda env2, v: g_ok(g_raw(names_term(names))))
         finally:
             self.ctx = outer_ctx
-        for v in M: self.ctx.note(v)
+        for v in M: self.ctx.note(v, elem_only=(v not in shape))      # element writes stay element writes through a nested construct
         return wrap(B, mk_bind(names_pat(names), ("if", c, a, b), rest(env_after)))
 
-    def for_stmt(self, s, env, rest):
+    def for_stmt(self, s, env, rest, after=None, site=None):
+        """site: the statement of the source this loop stands for, when s is a canonicalised copy (state_order)"""
         pat, it, body = s[1], strip(s[2]), s[3]
+        cf = self.iter_for(pat, s[2], body, env)
+        if cf is not None: return self.for_stmt(cf, env, rest, after, site if site is not None else s)
         if pat[0] != "pvar": self.bad("`for` with a tuple pattern")
+        cd = self.countdown_for(pat, it, body, env)
+        if cd is not None: return self.for_stmt(cd, env, rest, after, site if site is not None else s)
         if it[0] == "mcall" and it[2] == "drain" and len(it[3]) == 1 and strip(it[3][0])[0] == "range" \
            and strip(it[3][0])[1] is None and strip(it[3][0])[2] is None:
-            return self.for_in_stmt(pat, it[1], body, env, rest, drain=True)
+            return self.for_in_stmt(pat, it[1], body, env, rest, drain=True, site=site if site is not None else s)
         if it[0] == "var" and env.lookup(it[1]) is not None and env.lookup(it[1]).ty in LISTS:
-            return self.for_in_stmt(pat, it, body, env, rest, drain=False)
+            return self.for_in_stmt(pat, it, body, env, rest, drain=False, site=site if site is not None else s)
         rev = False
         if it[0] == "mcall" and it[2] == "rev" and not it[3]:
             rev = True; it = strip(it[1])
@@ -1544,10 +1848,11 @@ class Translator:
             self.ctx = self.ctx.sub(record=rec, cont=lambda env2: g_ok(g_raw("tt")))
             self.block(body, env_i, lambda env2, v: g_ok(g_raw("tt")))
         outer_ctx = self.ctx
-        M = self.assigned_in(run, env)
+        M = self.assigned_in(run, env); shape, order = self.last_shape, self.last_order
         # a variable that is still unassigned at the loop head is assigned in every pass before it is read and is not read
         # after the loop (definite assignment): it is local to the body, not part of the loop state
         M = [v for v in M if v not in env.uninit]
+        M = self.state_order(M, order, site if site is not None else s)
         names = self.state_of(M)
         early = contains_return(body)
         if early and (rev or signed): self.bad("`return` inside a reversed / isize `for` loop")
@@ -1571,15 +1876,238 @@ class Translator:
         else:
             fun = ("fun", [(iv.g, None), ("_", "unit")], bt)
         loop = ("app", "for_z" if signed else ("for_rev" if rev else "for_"), [g_raw(lo), g_raw(hi), fun, g_raw(names_term(names))])
-        for v in M: self.ctx.note(v)
+        for v in M: self.ctx.note(v, elem_only=(v not in shape))      # element writes stay element writes through a nested construct
+        B2 = after(lo, hi) if after is not None else []          # a canonicalised counter loop: the final value of its counter
         if early:
             loop = ("app", "for_ret", loop[2])
             o, r = self.fresh("o"), self.fresh("r")
             pat_inl = "inl " + (names_term(names) if names else "_")
-            return wrap(B, ("bind", ("v", o), loop, ("match", o, [(pat_inl, rest(env)), ("inr %s" % r, outer_ctx.ret_raw(r))])))
-        return wrap(B, mk_bind(names_pat(names), loop, rest(env)))
+            return wrap(B, ("bind", ("v", o), loop, ("match", o, [(pat_inl, wrap(B2, rest(env))), ("inr %s" % r, outer_ctx.ret_raw(r))])))
+        return wrap(B, mk_bind(names_pat(names), loop, wrap(B2, rest(env))))
 
-    def for_in_stmt(self, pat, src, body, env, rest, drain):
+    # ------------------------------------------------------------------ the order of the state tuple (see the header, C8)
+    def number_sites(self, body):
+        """loops and `if`s of the function body, numbered separately in source order: id(node) -> ('loop' | 'if', k)"""
+        self.sites, counters = {}, {"loop": 0, "if": 0}
+        def walk(n):
+            if isinstance(n, tuple):
+                if n and n[0] in ("for", "while", "if") and len(n) >= 3:
+                    kind = "if" if n[0] == "if" else "loop"
+                    self.sites[id(n)] = (kind, counters[kind]); counters[kind] += 1
+                for x in n[1:]: walk(x)
+            elif isinstance(n, list):
+                for x in n: walk(x)
+        walk(body)
+        self.body_ast = body                      # keeps the nodes alive: the ids stay valid
+
+    def state_order(self, M, order, node):
+        """M: the variables a loop / a falling-through `if` threads, in DECLARATION order (what the translation used from the start).
+        The canonical order is the order of their first assignment inside the construct, which does not depend on where and in
+        which order the variables were declared; the table pins, per construct of the pristine source, the permutation from the
+        canonical to the declaration order (driver/translate_src.py --pin-state-orders), so that moving a declaration (to the
+        point of first use, or past another one) leaves the tuple as it was.  Without an entry: declaration order, as before.
+        Any order is a correct translation (the same list is used for the initial state, the pattern and the result)."""
+        if len(M) < 2: return M
+        site = getattr(self, "sites", {}).get(id(node)) if node is not None else None
+        C = [v for v in order if v in M]
+        if site is None or len(C) != len(M): return M
+        if getattr(self, "pins", None) is not None:
+            self.pins["%s%d" % site] = [C.index(v) for v in M]
+            return M
+        perm = (self.spec.get("state_orders") or {}).get("%s%d" % site)
+        if perm is None or sorted(perm) != list(range(len(C))): return M
+        return [C[i] for i in perm]
+
+    # ------------------------------------------------------------------ canonicalisation of counter loops (see the header)
+    def dry(self, run):
+        """run a piece of translation for its effects on a recorder only: returns the set of variables it assigns"""
+        rec = Rec()
+        saved = (self.n, self.ctx, set(getattr(self, "killed", ())), getattr(self, "nwhile", 0))
+        try:
+            self.ctx = self.ctx.sub(record=rec, cont=lambda env2: g_ok(g_raw("tt")))
+            run()
+        finally:
+            self.n, self.ctx, self.killed, self.nwhile = saved
+        return rec
+
+    def loop_effects(self, var, body, env):
+        """the outer variables a loop body assigns, `var` being its (usize) loop variable"""
+        env_i, iv = env.declare(var, self.gname(var), "usize")
+        rec = self.dry(lambda: self.block(body, env_i, lambda env2, v: g_ok(g_raw("tt"))))
+        M = ModList(v for v in env.visible() if v in rec)
+        M.shape = set(rec.shape)
+        return M
+
+    def shape_reads_only(self, e, name, env):
+        """every occurrence of the variable in the expression is under .len() / .size() (a list, possibly through a transparent
+        wrapper field such as Vector.vec) or .rows() / .cols() / .rows / .cols (a matrix)"""
+        def count(n):
+            if isinstance(n, tuple):
+                return (1 if n[:1] == ("var",) and len(n) == 2 and n[1] == name else 0) + sum(count(x) for x in n[1:])
+            if isinstance(n, list): return sum(count(x) for x in n)
+            return 0
+        def base_is_var(b):
+            b = strip(b)
+            while b[0] == "field" and (self.tb.FIELDS.get((self.type_of(b[1], env), b[2])) or ("", ""))[0] == "{0}": b = strip(b[1])
+            return b == ("var", name)
+        def shape(n):
+            if isinstance(n, tuple):
+                here = 0
+                if n[:1] == ("mcall",) and not n[3] and base_is_var(n[1]):
+                    t = self.type_of(n[1], env)
+                    if (isinstance(t, str) and t in LISTS and n[2] in ("len", "size")) or (t == "mat" and n[2] in ("rows", "cols")): here = 1
+                elif n[:1] == ("field",) and n[2] in ("rows", "cols") and strip(n[1]) == ("var", name) and self.type_of(n[1], env) == "mat": here = 1
+                return here if here else sum(shape(x) for x in n[1:])
+            if isinstance(n, list): return sum(shape(x) for x in n)
+            return 0
+        return count(e) == shape(e)
+
+    def invariant_in(self, e, env, M):
+        """the expression has the same value (or the same panic) whenever it is evaluated while only the variables M change: it reads
+        none of them -- except the length of a list / the dimensions of a matrix that the code only changes by writing single
+        elements in place (upd keeps the length, mset keeps rows and cols) -- and evaluating it assigns nothing"""
+        for x in vars_of(e):
+            v = env.lookup(x)
+            if v is not None and v in M:
+                if v in getattr(M, "shape", M) or not self.shape_reads_only(e, x, env): return False
+        return not self.dry(lambda: self.ex(e, env, []))
+
+    def type_of(self, e, env):
+        out = []
+        self.dry(lambda: out.append(self.ex(e, env, [])[1]))
+        return out[0]
+
+    def iter_for(self, pat, it, body, env):
+        """(C9) loops over the elements of a list are index loops:
+             for x in E.iter() | E.iter_mut() | &E | &mut E   { BODY }   ==>  for k in 0..E.len() { BODY[x := E[k]] }
+             for (i, x) in E.iter().enumerate()               { BODY }   ==>  for i in 0..E.len() { BODY[x := E[i]] }
+             for (a, b) in E.iter().zip(F.iter())             { BODY }   ==>  for k in 0..min(E.len(), F.len()) { BODY[a := E[k], b := F[k]] }
+           E, F places (a variable or a field chain) of a list type.  The element variable is a reference into E: `*x`, `x.m()`,
+           `x.clone()` read E[k], `*x = v` / `*x op= v` (iter_mut) write E[k]; while the iterator is alive the borrow rules forbid
+           any other access to E that could change it (iter) resp. any other access at all (iter_mut), and an element write keeps
+           the length, so the index reads and writes E[k], k < E.len(), are in range.  None when the loop is not of this shape."""
+        def src_of(e):
+            e = unparen(e)
+            if e[0] == "mcall" and e[2] in ("iter", "iter_mut") and not e[3]: p = strip(e[1])
+            elif e[0] == "un" and e[1] in ("&", "&mut"): p = strip(e[2])
+            else: return None
+            q = p
+            while q[0] == "field": q = strip(q[1])
+            if q[0] != "var" or env.lookup(q[1]) is None: return None
+            ty = self.type_of(p, env)
+            if not (isinstance(ty, str) and ty in LISTS): return None
+            m = "len" if (ty, "len", 0) in self.tb.METHODS or (ty, "len", 0) in self.spec.get("methods", {}) else "size"
+            return p, ("mcall", p, m, [])
+        e = unparen(it)
+        elems = []                                  # (element variable, source place)
+        if pat[0] == "pvar":
+            a = src_of(e)
+            if a is None: return None
+            k = pat[1] + "__k"; elems.append((pat[1], a[0])); bound = a[1]
+        elif pat[0] == "ptuple" and len(pat[1]) == 2 and all(q[0] == "pvar" for q in pat[1]):
+            if e[0] == "mcall" and e[2] == "enumerate" and not e[3]:
+                a = src_of(e[1])
+                if a is None: return None
+                k = pat[1][0][1]; elems.append((pat[1][1][1], a[0])); bound = a[1]
+            elif e[0] == "mcall" and e[2] == "zip" and len(e[3]) == 1:
+                a, b = src_of(e[1]), src_of(e[3][0])
+                if a is None or b is None: return None
+                k = pat[1][0][1] + "__k"; elems += [(pat[1][0][1], a[0]), (pat[1][1][1], b[0])]
+                bound = ("call", ("path", ["std", "cmp", "min"]), [a[1], b[1]])
+            else: return None
+        else: return None
+        names = [x for x, _ in elems]
+        if k in names or len(set(names)) != len(names): return None
+        if k.endswith("__k") and mentions(body, k): return None          # the index variable we introduce must be fresh
+        def rebinds(n):
+            if isinstance(n, tuple):
+                if n and n[0] == "pvar" and len(n) == 3 and n[1] in names: return True
+                return any(rebinds(x) for x in n)
+            if isinstance(n, list): return any(rebinds(x) for x in n)
+            return False
+        if rebinds(body): return None
+        def subst(n):
+            if isinstance(n, tuple):
+                if n and n[0] == "var" and len(n) == 2:
+                    for x, src in elems:
+                        if n[1] == x: return ("index", src, ("var", k))
+                    return n
+                return tuple(subst(x) for x in n)
+            if isinstance(n, list): return [subst(x) for x in n]
+            return n
+        return ("for", ("pvar", k, False), ("range", ("num", "0"), bound, False), subst(body))
+
+    def countdown_for(self, pat, it, body, env):
+        """for K in 0..N { let I = N - 1 - K; BODY }   ==>   for I in (0..N).rev() { BODY }
+        when K does not occur in BODY, BODY does not assign I and N is invariant in BODY: in pass K (0 <= K < N) the two
+        checked subtractions N - 1 and (N - 1) - K succeed and I takes the values N-1, .., 0 in this order."""
+        if it[0] != "range" or it[1] is None or it[2] is None or it[3] or unparen(it[1]) not in (("num", "0"), ("num", "0usize")): return None
+        if not body[1] or body[1][0][0] != "let": return None
+        lt = body[1][0]
+        if lt[1][0] != "pvar" or lt[3] is None: return None
+        I, K, e = lt[1][1], pat[1], unparen(lt[3])
+        if I == K or K == "_": return None
+        if not (e[0] == "bin" and e[1] == "-" and unparen(e[3]) == ("var", K)): return None
+        e1 = unparen(e[2])
+        if not (e1[0] == "bin" and e1[1] == "-" and is_one(e1[3]) and ast_eq(e1[2], it[2])): return None
+        body2 = ("blk", body[1][1:], body[2])
+        if mentions(body2, K) or assigns(body2, I) or mentions(it[2], I) or mentions(it[2], K): return None
+        if not self.invariant_in(it[2], env, self.loop_effects(I, body2, env)): return None
+        return ("for", ("pvar", I, False), ("mcall", ("paren", it), "rev", []), body2)
+
+    def counter_while(self, s, ss, idx, tail, env, rest):
+        """`while` loops whose trip count is fixed by a counter are `for` loops (the fuel comes from the counter, not from the table):
+             while i < H { BODY; i += 1; }      ==>  for i in i..H { BODY }        ; i = max(i, H)     (no `continue` in BODY)
+             while i < H { i += 1; BODY }       ==>  for k in i..H { let i = k + 1; BODY }   ; i = max(i, H)
+             while i > L { i -= 1; BODY }       ==>  for i in (L..i).rev() { BODY }  ; i = min(i, L)
+           (`<=` as an inclusive range; `i != 0` as `i > 0`; the bound on either side) provided that BODY does not assign i and the
+           bound is invariant in BODY.  Returns None when the loop is not of this shape (the table-driven translation applies)."""
+        if (self.spec.get("while") or {}).get(getattr(self, "nwhile", 0) + 1) is not None: return None       # the table wins
+        cond, body = unparen(s[1]), s[2]
+        if body[2] is not None:                        # the body of a `while` has type (): a last expression without `;` is a statement
+            body = ("blk", list(body[1]) + [("expr", body[2], False)], None)
+        if cond[0] != "bin" or not body[1]: return None
+        flip = {"<": ">", ">": "<", "<=": ">=", ">=": "<=", "!=": "!="}
+        op, a, b = cond[1], unparen(cond[2]), unparen(cond[3])
+        if op not in flip: return None
+        def counter(x, other):
+            return x[0] == "var" and not mentions(other, x[1]) and env.lookup(x[1]) is not None \
+                   and env.lookup(x[1]).ty == "usize" and env.lookup(x[1]) not in env.uninit
+        if counter(a, b): name, bound = a[1], b
+        elif counter(b, a): name, bound, op = b[1], a, flip[op]
+        else: return None
+        v, st = env.lookup(name), body[1]
+        if op in ("<", "<="):
+            if is_step(st[-1], name, "+") and len(st) > 1: kind, inner = "up", st[:-1]
+            elif is_step(st[0], name, "+"): kind, inner = "up1", st[1:]
+            else: return None
+        elif op == ">" or (op == "!=" and unparen(bound) in (("num", "0"), ("num", "0usize"))):
+            if not is_step(st[0], name, "-"): return None
+            kind, inner = "down", st[1:]
+        else: return None
+        if assigns(inner, name): return None
+        if kind == "up" and continues_here(inner): return None
+        loopvar = name
+        if kind == "up1":
+            loopvar = "_"
+            if mentions(inner, name):
+                loopvar = name + "__k"
+                inner = [("let", ("pvar", name, False), None, ("bin", "+", ("var", loopvar), ("num", "1")))] + list(inner)
+        inner_blk = ("blk", list(inner), None)
+        M = self.loop_effects(loopvar, inner_blk, env)
+        if v in M or not self.invariant_in(bound, env, M): return None
+        # is the counter dead after the loop?  (declared in this very block and never mentioned again)
+        dead = any(x[0] == "let" and pat_binds(x[1], name) for x in ss[:idx]) and not mentions(ss[idx + 1:], name) \
+               and (tail is None or not mentions(tail, name))
+        if kind == "down": it = ("mcall", ("paren", ("range", bound, ("var", name), False)), "rev", [])
+        else: it = ("range", ("var", name), bound, op == "<=")
+        def after(lo, hi):
+            self.ctx.note(v)
+            if dead: return []
+            return [("let", ("v", v.g), g_raw("(Nat.min %s %s)" % (hi, lo) if kind == "down" else "(Nat.max %s %s)" % (lo, hi)))]
+        return self.for_stmt(("for", ("pvar", loopvar, False), it, inner_blk), env, rest, after=after, site=s)
+
+    def for_in_stmt(self, pat, src, body, env, rest, drain, site=None):
         """for x in v.drain(..) { body }: the elements in order (for_in, gen/SrcPrelude.v); v is empty afterwards"""
         B = []
         lst, tl = self.ex(src, env, B)
@@ -1590,8 +2118,9 @@ class Translator:
             self.ctx = self.ctx.sub(record=rec, cont=lambda env2: g_ok(g_raw("tt")))
             self.block(body, env_i, lambda env2, v: g_ok(g_raw("tt")))
         outer_ctx = self.ctx
-        M = self.assigned_in(run, env)
+        M = self.assigned_in(run, env); shape, order = self.last_shape, self.last_order
         M = [v for v in M if v not in env.uninit]
+        M = self.state_order(M, order, site)
         owner = self.root_var(src, env)
         if owner in M: self.bad("the vector a `for` loop drains is assigned inside the loop")
         names = self.state_of(M)
@@ -1611,7 +2140,7 @@ class Translator:
         else:
             fun = ("fun", [(iv.g, None), ("_", "unit")], bt)
         loop = ("app", "for_in", [g_raw(lst), fun, g_raw(names_term(names))])
-        for v in M: self.ctx.note(v)
+        for v in M: self.ctx.note(v, elem_only=(v not in shape))      # element writes stay element writes through a nested construct
         B2 = []
         if drain: self.assign_place(src, "(@nil %s)" % gtype(LISTS[tl]), tl, env, B2)
         else:                                               # `for x in v` moves v: it must not be read again
@@ -1632,8 +2161,9 @@ class Translator:
             self.block(body, env, lambda env2, v: g_ok(g_raw("tt")))
         outer_ctx = self.ctx
         saved_w = self.nwhile
-        M = self.assigned_in(run, env)
+        M = self.assigned_in(run, env); shape, order = self.last_shape, self.last_order
         M = [v for v in M if v not in env.uninit]
+        M = self.state_order(M, order, s)
         self.nwhile = saved_w
         names = self.state_of(M)
         nxt = g_ok(g_raw("(WNext %s)" % names_term(names)))
@@ -1656,7 +2186,7 @@ class Translator:
             fun = ("fun", [(names[0] if M else "_", sty)], inner)
         fuel = wt["fuel"].format(**{v.name: v.g for v in env.visible()})
         loop = ("app", "while_ret", [g_raw(fuel), fun, g_raw(names_term(names))])
-        for v in M: self.ctx.note(v)
+        for v in M: self.ctx.note(v, elem_only=(v not in shape))      # element writes stay element writes through a nested construct
         o, r = self.fresh("o"), self.fresh("r")
         exhaust = wt.get("on_exhaust", "Panic Guard")
         ex_term = ("panic", exhaust[6:]) if exhaust.startswith("Panic ") else outer_ctx.ret_raw(exhaust)
@@ -1669,6 +2199,7 @@ class Translator:
     def function(self, fn, impl_header):
         """fn = ('fn', name, params, ret, body) -> (signature text, body term, info)"""
         spec = self.spec
+        self.impl_header = impl_header
         self.selfty = spec.get("selfty") or self.infer_selfty(impl_header)
         env = Env()
         gparams, mutparams = [], []
@@ -1715,6 +2246,7 @@ class Translator:
         ret = lambda env2, v: g_ok(g_raw(assemble(env2, v)))
         self.ctx = Ctx(ret, lambda env2: self.bad("`continue` outside a loop"), [], ret_raw=lambda t: g_ok(g_raw(t)))
         body = fn_body_ast(fn, self.what)
+        self.number_sites(body)
         term = self.block(body, env, lambda env2, v: ret(env2, v))
         return gparams, term, self.result_type
 
